@@ -449,7 +449,23 @@ def _diffuse(ck: Checker, prog: Program):
 
 
 def _r7(ck: Checker, prog: Program):
-    tab = fftlen.extract(prog)
+    try:
+        tab = fftlen.extract(prog)
+    except AnalysisError:
+        # no maximum over all records: is the length of one particular record used instead?
+        pf = prog.func("processing.prepare_fft_settings")
+        recs = pf.params[0]
+        one = [st for st in own_nodes(pf.node) if isinstance(st, ast.Assign) and len(st.targets) == 1 and isinstance(st.targets[0], ast.Name)
+               and any(isinstance(x, ast.Subscript) and isinstance(x.value, ast.Name) and x.value.id == recs and isinstance(x.slice, (ast.Constant, ast.UnaryOp))
+                       for x in ast.walk(st.value)) and "n_samples" in unparse(st.value)]
+        feeds = [st for st in one if any(isinstance(c, ast.Call) and call_name(c) in ("nextpow2", "get", "max") and st.targets[0].id in {n.id for n in ast.walk(c) if isinstance(n, ast.Name)}
+                                         for c in ast.walk(pf.node))]
+        if feeds:
+            ck.violation("C01.R7", pf.qualname, norm_key(feeds[0], 80),
+                         f"the FFT length is derived from the length of one record (`{norm_key(feeds[0], 70)}`), not from the longest of the records given: "
+                         f"a longer record later in the list is silently truncated by rfft", loc=pf.loc(feeds[0]))
+            return
+        raise
     ck.floor("C01.R7", len(tab.stores), 3, "stores of the FFT length")
     if tab.nextpow2_ok:
         ck.ok("C01.R7", "processing.nextpow2", tab.nextpow2_detail)
